@@ -70,6 +70,7 @@ func runC12(c *Ctx, idx int) {
 		prof.Skipped, prof.MediaInText, prof.RelURLs = true, true, true
 		prof.AttrNoise = r.Intn(2) == 0 // attributes that every output path must strip
 		prof.MaxBlocks = 8
+		prof.H1Fallback = r.Intn(2) == 0
 		g := NewArtGen(r, prof)
 		src := g.Doc()
 		pg := genPager(r, true)
@@ -83,6 +84,10 @@ func runC12(c *Ctx, idx int) {
 				body := src[b+e+1 : strings.LastIndex(src, "</body>")]
 				src = strings.Replace(md.All, "</body>", body+"</body>", 1)
 			}
+		}
+		if prof.H1Fallback {
+			// a site-wide <title> that is too short to be the title: the first <h1> is consulted
+			src = strings.Replace(src, "<title>Some ordinary page title</title>", "<title>Home</title>", 1)
 		}
 		return src, pg
 	}
